@@ -4,6 +4,8 @@
 -/
 import SuplaVerif.Model.Form
 import SuplaVerif.Model.Cred
+import SuplaVerif.Model.FormScan
+import SuplaVerif.Gen.FormTable
 namespace SuplaVerif.C14
 open SuplaVerif
 
@@ -176,6 +178,270 @@ theorem c14_keep_password_keeps_mail (L E : Nat) (oldPwd oldMail newMail : Bytes
       · rw [if_neg h3]; exact ⟨rfl, hlen⟩
     · rw [if_neg h2]; exact ⟨rfl, hlen⟩
   · rw [if_neg h1]; exact ⟨rfl, hlen⟩
+
+
+/-! ### the field scanner (Model/FormScan) -/
+
+/-- where the field of an event or of a pending value comes from: it was pending when the segment began, or a row of the
+    table whose name stands at a name position of the segment and whose protocol condition holds -/
+def Origin (T : List Row) (mqtt : Bool) (l : Bytes) (cur : Option (Row × Bytes)) (r : Row) : Prop :=
+  (∃ b, cur = some (r, b)) ∨
+  (r ∈ T ∧ condOk r mqtt = true ∧ ∃ s, s <:+ l ∧ atName s = true ∧ s.take 3 = r.name)
+
+theorem lookup_some (T : List Row) (mqtt : Bool) (nm : Bytes) (r : Row) (h : lookup T mqtt nm = some r) :
+    r ∈ T ∧ r.name = nm ∧ condOk r mqtt = true := by
+  unfold lookup at h
+  cases hf : T.find? (fun r => r.name == nm) with
+  | none => rw [hf] at h; cases h
+  | some r' =>
+    rw [hf] at h
+    simp only at h
+    by_cases hc : condOk r' mqtt = true
+    · rw [if_pos hc] at h
+      cases h
+      have h1 := List.find?_some hf
+      exact ⟨List.mem_of_find?_eq_some hf, by simpa using h1, hc⟩
+    · rw [if_neg hc] at h; cases h
+
+theorem copyStep_len (size : Nat) (buf l : Bytes) (h : buf.length ≤ size) : (copyStep size buf l).1.length ≤ size := by
+  unfold copyStep
+  split
+  · rename_i hc
+    split <;> (simp; omega)
+  · exact h
+
+/-- one iteration: a value that stays pending, and an event, belong to a field with an origin in this segment; the buffer
+    never holds more than the field size -/
+theorem iter_spec (T : List Row) (mqtt : Bool) (l : Bytes) (cur : Option (Row × Bytes))
+    (hcur : ∀ r b, cur = some (r, b) → b.length ≤ r.size) :
+    (∀ r b, (iter T mqtt l cur).cur = some (r, b) → Origin T mqtt l cur r ∧ b.length ≤ r.size) ∧
+    (∀ ev, (iter T mqtt l cur).ev = some ev →
+      ∃ r w, Origin T mqtt l cur r ∧ ev = (r.var, stored r.size w) ∧ w.length ≤ r.size) := by
+  -- the field the copy step works on
+  have hc1 : ∀ r b, (if (cur.isNone && atName l) = true then (lookup T mqtt (l.take 3)).map (fun r => (r, ([] : Bytes))) else cur)
+      = some (r, b) → Origin T mqtt l cur r ∧ b.length ≤ r.size := by
+    intro r b h
+    by_cases hn : (cur.isNone && atName l) = true
+    · rw [if_pos hn] at h
+      cases hl : lookup T mqtt (l.take 3) with
+      | none => rw [hl] at h; cases h
+      | some r' =>
+        rw [hl] at h
+        simp only [Option.map_some, Option.some.injEq, Prod.mk.injEq] at h
+        obtain ⟨h1, h2⟩ := h
+        subst h1; subst h2
+        have := lookup_some T mqtt _ _ hl
+        have hat : atName l = true := (Bool.and_eq_true_iff.mp hn).2
+        exact ⟨Or.inr ⟨this.1, this.2.2, l, List.suffix_refl l, hat, this.2.1.symm⟩, Nat.zero_le _⟩
+    · rw [if_neg hn] at h
+      exact ⟨Or.inl ⟨b, h⟩, hcur r b h⟩
+  unfold iter
+  simp only
+  generalize (if (cur.isNone && atName l) = true then (lookup T mqtt (l.take 3)).map (fun r => (r, ([] : Bytes))) else cur) = c1 at hc1
+  generalize (if (cur.isNone && atName l) = true then l.drop 4 else l) = l1
+  cases c1 with
+  | none =>
+    refine ⟨?_, ?_⟩
+    · intro r b h; simp at h
+    · intro ev h; simp at h
+  | some rb =>
+    obtain ⟨row, buf⟩ := rb
+    have ho := hc1 row buf rfl
+    have hlen := copyStep_len row.size buf l1 ho.2
+    simp only
+    by_cases hv : valueEnds row.size (copyStep row.size buf l1).1 (copyStep row.size buf l1).2 = true
+    · rw [if_pos hv]
+      refine ⟨(fun r b h => by simp at h), (fun ev h => ?_)⟩
+      simp only [Option.some.injEq] at h
+      exact ⟨row, _, ho.1, h.symm, hlen⟩
+    · rw [if_neg hv]
+      refine ⟨(fun r b h => ?_), (fun ev h => by simp at h)⟩
+      simp only [Option.some.injEq, Prod.mk.injEq] at h
+      obtain ⟨h1, h2⟩ := h
+      subst h1; subst h2
+      exact ⟨ho.1, hlen⟩
+
+theorem origin_lift (T : List Row) (mqtt : Bool) (l l' : Bytes) (cur cur' : Option (Row × Bytes)) (r : Row)
+    (hs : l' <:+ l) (hc : ∀ r b, cur' = some (r, b) → Origin T mqtt l cur r)
+    (h : Origin T mqtt l' cur' r) : Origin T mqtt l cur r := by
+  rcases h with ⟨b, hb⟩ | ⟨h1, h2, s, h3, h4, h5⟩
+  · exact hc r b hb
+  · exact Or.inr ⟨h1, h2, s, List.IsSuffix.trans h3 hs, h4, h5⟩
+
+theorem scanF_spec (T : List Row) (mqtt : Bool) (n : Nat) : ∀ (l : Bytes) (cur : Option (Row × Bytes))
+    (_ : ∀ r b, cur = some (r, b) → b.length ≤ r.size),
+    ∀ ev ∈ (scanF T mqtt n l cur).1, ∃ r w, Origin T mqtt l cur r ∧ ev = (r.var, stored r.size w) ∧ w.length ≤ r.size := by
+  induction n with
+  | zero => intro l cur _ ev h; cases h
+  | succ n ih =>
+    intro l cur hcur ev hev
+    unfold scanF at hev
+    by_cases hl : l = []
+    · rw [if_pos hl] at hev; cases hev
+    · rw [if_neg hl] at hev
+      have sp := iter_spec T mqtt l cur hcur
+      rcases List.mem_append.mp hev with h | h
+      · have : (iter T mqtt l cur).ev = some ev := by
+          cases he : (iter T mqtt l cur).ev with
+          | none => rw [he] at h; cases h
+          | some e => rw [he] at h; simp at h; rw [h]
+        exact sp.2 ev this
+      · obtain ⟨r, w, ho, h1, h2⟩ := ih _ _ (fun r b hb => (sp.1 r b hb).2) ev h
+        obtain ⟨k, _, hk⟩ := iter_rest T mqtt l cur
+        exact ⟨r, w, origin_lift T mqtt l _ cur _ r (by rw [hk]; exact List.drop_suffix k l)
+          (fun r b hb => (sp.1 r b hb).1) ho, h1, h2⟩
+
+/-- **C14.S1 (what the scanner can produce)** for every table, every segment content and every pending field: each event
+    belongs to a field that was pending or whose name stands at a name position of this segment (with its protocol
+    condition met), and its value is the terminator rule applied to at most `size` bytes -/
+theorem scan_spec (T : List Row) (mqtt : Bool) (l : Bytes) (cur : Option (Row × Bytes))
+    (hcur : ∀ r b, cur = some (r, b) → b.length ≤ r.size) :
+    ∀ ev ∈ (scan T mqtt l cur).1, ∃ r w, Origin T mqtt l cur r ∧ ev = (r.var, stored r.size w) ∧ w.length ≤ r.size :=
+  scanF_spec T mqtt l.length l cur hcur
+
+/-- the name of row `r` stands at a name position of the segment -/
+def Named (l : Bytes) (r : Row) : Prop := ∃ s, s <:+ l ∧ atName s = true ∧ s.take 3 = r.name
+
+/-- **C14.S2 (only named fields, terminated inside their buffers)** a segment scanned with no field pending yields events
+    only for rows of the table that are named in it, each value terminated inside the row's buffer -/
+theorem c14_scan_only_named (T : List Row) (hsz : ∀ r ∈ T, 0 < r.size) (mqtt : Bool) (l : Bytes) :
+    ∀ ev ∈ (scan T mqtt l none).1, ∃ r ∈ T, r.var = ev.1 ∧ condOk r mqtt = true ∧ Named l r ∧
+      ev.2.length ≤ r.size ∧ ev.2.getLast? = some 0 := by
+  intro ev hev
+  obtain ⟨r, w, ho, h1, h2⟩ := scan_spec T mqtt l none (fun r b h => by cases h) ev hev
+  rcases ho with ⟨b, hb⟩ | ⟨hr, hc, hn⟩
+  · cases hb
+  · have st := stored_terminated r.size (hsz r hr) w h2
+    subst h1
+    exact ⟨r, hr, rfl, hc, hn, st.1, st.2⟩
+
+/-- **C14.S3 (absent means untouched)** a variable none of whose rows is named in the segment gets no event -/
+theorem c14_absent_no_event (T : List Row) (mqtt : Bool) (l : Bytes) (v : Nat)
+    (habs : ∀ r ∈ T, r.var = v → ¬ Named l r) : ∀ ev ∈ (scan T mqtt l none).1, ev.1 ≠ v := by
+  intro ev hev hv
+  obtain ⟨r, w, ho, h1, _⟩ := scan_spec T mqtt l none (fun r b h => by cases h) ev hev
+  rcases ho with ⟨b, hb⟩ | ⟨hr, _, hn⟩
+  · cases hb
+  · subst h1
+    exact habs r hr hv hn
+
+/-- the text settings as a function of the destination id; an event writes the destination of the first row with its
+    variable (destination 0 = the scratch buffer for numbers: not a setting) -/
+def applyEvs (T : List Row) (cfg : Nat → Bytes) : List FormEv → Nat → Bytes
+  | [] => cfg
+  | ev :: rest =>
+    match T.find? (fun r => r.var == ev.1) with
+    | some r => applyEvs T (fun t => if t = r.target then ev.2 else cfg t) rest
+    | none => applyEvs T cfg rest
+
+theorem applyEvs_untouched (T : List Row) (evs : List FormEv) (cfg : Nat → Bytes) (t : Nat)
+    (h : ∀ ev ∈ evs, ∀ r, T.find? (fun r => r.var == ev.1) = some r → r.target ≠ t) : applyEvs T cfg evs t = cfg t := by
+  induction evs generalizing cfg with
+  | nil => rfl
+  | cons ev rest ih =>
+    unfold applyEvs
+    cases hf : T.find? (fun r => r.var == ev.1) with
+    | none => exact ih cfg (fun e he => h e (by simp [he]))
+    | some r =>
+      simp only
+      rw [ih _ (fun e he => h e (by simp [he]))]
+      have := h ev (by simp) r hf
+      rw [if_neg (fun e => this e.symm)]
+
+/-- **C14.S4 (a setting not named in the request keeps its value)** for a table in which a variable has one row: if no row
+    writing destination `t` is named in the segment, destination `t` is unchanged by the whole scan -/
+theorem c14_unnamed_setting_kept (T : List Row) (huniq : ∀ r ∈ T, ∀ r' ∈ T, r.var = r'.var → r = r')
+    (mqtt : Bool) (l : Bytes) (cfg : Nat → Bytes) (t : Nat) (habs : ∀ r ∈ T, r.target = t → ¬ Named l r) :
+    applyEvs T cfg (scan T mqtt l none).1 t = cfg t := by
+  apply applyEvs_untouched
+  intro ev hev r' hf
+  obtain ⟨r, w, ho, h1, _⟩ := scan_spec T mqtt l none (fun r b h => by cases h) ev hev
+  rcases ho with ⟨b, hb⟩ | ⟨hr, _, hn⟩
+  · cases hb
+  · have hr' := List.mem_of_find?_eq_some hf
+    have hv : r'.var = ev.1 := by simpa using List.find?_some hf
+    have : r = r' := huniq r hr r' hr' (by rw [hv, h1])
+    subst this
+    exact fun ht => habs r hr ht hn
+
+/-- **C14.S5 (nothing without a POST to "/")** the one-segment request handler counts fields only for a POST whose path
+    is "/" and that contains the end of the head; the count is the protocol field (if present) plus one per event -/
+theorem c14_count_needs_post (T : List Row) (pro : Bytes) (mqtt0 : Bool) (seg : Bytes) (m : Nat) (evs : List FormEv) (mq : Bool)
+    (h : postScan T pro mqtt0 seg = some (m, evs, mq)) :
+    reqType seg = 2 ∧ 0 < countHeadEnds seg ∧ m ≤ 1 + evs.length ∧ evs.length ≤ m ∧
+    evs = (scan T mq (seg.drop (3 * countHeadEnds seg)) none).1 := by
+  unfold postScan at h
+  by_cases hc : reqType seg = 2 ∧ countHeadEnds seg > 0
+  · rw [if_pos hc] at h
+    simp only [Option.some.injEq, Prod.mk.injEq] at h
+    obtain ⟨h1, h2, h3⟩ := h
+    refine ⟨hc.1, hc.2, ?_, ?_, ?_⟩
+    · rw [← h1, ← h2]; split <;> omega
+    · rw [← h1, ← h2]; omega
+    · rw [← h2, ← h3]
+  · rw [if_neg hc] at h; cases h
+
+/-- POST means: the segment begins with "POST / HTTP" -/
+theorem reqType_post (l : Bytes) (h : reqType l = 2) : l.take 11 = [80, 79, 83, 84, 32, 47, 32, 72, 84, 84, 80] := by
+  unfold reqType at h
+  split at h
+  · cases h
+  · split at h
+    · rename_i h2
+      have h3 := Bool.and_eq_true_iff.mp h2
+      have h4 := Bool.and_eq_true_iff.mp h3.1
+      have a : l.take 4 = [80, 79, 83, 84] := by simpa using h4.1
+      have b : (l.drop 4).take 7 = [32, 47, 32, 72, 84, 84, 80] := by simpa using h3.2
+      have : l.take 11 = l.take 4 ++ (l.drop 4).take 7 := List.take_add (i := 4) (j := 7)
+      rw [this, a, b]; rfl
+    · cases h
+
+
+/-! ### the table of /repo (regenerated) -/
+
+/-- every buffer of the regenerated table has room for a terminator -/
+theorem c14_table_sizes : ∀ r ∈ Gen.formTable, 0 < r.size := by decide
+
+/-- in the regenerated table a variable has one row and a name has one row -/
+theorem c14_table_unique :
+    (Gen.formTable.map (·.var)).Nodup ∧ (Gen.formTable.map (·.name)).Nodup := by decide
+
+theorem nodup_map_inj {α β : Type} (f : α → β) : ∀ (l : List α), (l.map f).Nodup →
+    ∀ a ∈ l, ∀ b ∈ l, f a = f b → a = b := by
+  intro l
+  induction l with
+  | nil => intro _ a ha; cases ha
+  | cons x xs ih =>
+    intro hn a ha b hb hab
+    simp only [List.map_cons, List.nodup_cons, List.mem_map, not_exists, not_and] at hn
+    rcases List.mem_cons.mp ha with ha | ha <;> rcases List.mem_cons.mp hb with hb | hb
+    · rw [ha, hb]
+    · exact absurd (by rw [← ha]; exact hab.symm) (hn.1 b hb)
+    · exact absurd (by rw [← hb]; exact hab) (hn.1 a ha)
+    · exact ih hn.2 a ha b hb hab
+
+/-- **C14.S6 (the form of /repo)** with the table regenerated from supla_esp_parse_vars: a one-segment request yields
+    events only for fields named in it, every value terminated inside its buffer; and a text setting none of whose
+    field names stands at a name position keeps its value -/
+theorem c14_repo_scan (mqtt : Bool) (l : Bytes) :
+    (∀ ev ∈ (scan Gen.formTable mqtt l none).1, ∃ r ∈ Gen.formTable, r.var = ev.1 ∧ condOk r mqtt = true ∧ Named l r ∧
+      ev.2.length ≤ r.size ∧ ev.2.getLast? = some 0) ∧
+    (∀ (cfg : Nat → Bytes) (t : Nat), (∀ r ∈ Gen.formTable, r.target = t → ¬ Named l r) →
+      applyEvs Gen.formTable cfg (scan Gen.formTable mqtt l none).1 t = cfg t) :=
+  ⟨c14_scan_only_named Gen.formTable c14_table_sizes mqtt l,
+   fun cfg t h => c14_unnamed_setting_kept Gen.formTable
+     (nodup_map_inj (·.var) Gen.formTable c14_table_unique.1) mqtt l cfg t h⟩
+
+/-- the save threshold of /repo is the property's "at least four recognised fields" -/
+theorem c14_repo_min_fields : Gen.formMinFields = 4 := by decide
+
+/- non-vacuity: a five-field POST in one segment: the protocol field and four events, in order; the same body sent with
+   GET, or to another path, counts nothing -/
+set_option maxRecDepth 20000 in
+example : postScan Gen.formTable Gen.formPro false [80, 79, 83, 84, 32, 47, 32, 72, 84, 84, 80, 47, 49, 46, 49, 13, 10, 13, 10, 115, 105, 100, 61, 110, 43, 49, 38, 115, 118, 114, 61, 115, 46, 101, 120, 38, 101, 109, 108, 61, 97, 37, 52, 48, 98, 38, 112, 114, 111, 61, 48, 38, 108, 101, 100, 61, 49] =
+    some (5, [(1, [110, 32, 49, 0]), (3, [115, 46, 101, 120, 0]), (20, [97, 64, 98, 0]), (10, [49, 0])], false) := by decide
+set_option maxRecDepth 20000 in
+example : postScan Gen.formTable Gen.formPro false [71, 69, 84, 32, 47, 32, 72, 84, 84, 80, 47, 49, 46, 49, 13, 10, 13, 10, 115, 105, 100, 61, 110, 43, 49, 38, 115, 118, 114, 61, 115, 46, 101, 120, 38, 101, 109, 108, 61, 97, 37, 52, 48, 98, 38, 112, 114, 111, 61, 48, 38, 108, 101, 100, 61, 49] = none := by decide
 
 /-- non-vacuity: Password field of 4, Email field of 12: the stored password "PPPP" + overflow "QQ" behind "ab", new e-mail
     "wxyz": the e-mail stays "wxyz", the overflow part follows its terminator -/
